@@ -172,12 +172,6 @@ Fixpoint next_n (n : nat) (s : jst) : res (list tok * jst) :=
       Ok (t :: ts, s2)
   end.
 
-Lemma firstn_plus {A} a b (l : list A) : firstn (a + b) l = firstn a l ++ firstn b (skipn a l).
-Proof.
-  revert l. induction a as [|a IH]; intros l; [reflexivity|].
-  destruct l as [|x l]; [cbn; rewrite firstn_nil; reflexivity|]. cbn [Nat.add firstn skipn app]. f_equal. apply IH.
-Qed.
-
 Lemma slice_split {A} (l : list A) a b c : 0 <= a <= b -> b <= c -> c <= len l ->
   slice l a b ++ slice l b c = slice l a c.
 Proof.
